@@ -32,6 +32,8 @@ typedef VP_REAL T;
 #else
 #define VP_CANARY() __CPROVER_assert(0, "VP_CANARY reachable (must fail)")
 #endif
+/* the repository's own assert(c) becomes an obligation */
+#define VP_REPO_ASSERT(c) __CPROVER_assert((c), "assert() in the repository holds")
 #define VP_SZ_MAX 18446744073709551615UL
 #define VP_ISNAN(a) ((a) != (a))
 #define VP_ISINF(a) (!VP_ISNAN(a) && VP_ISNAN((a) - (a)))
